@@ -100,7 +100,19 @@ Theorem C11_ohdr_v2_eof_quirk :
 Proof. exact ohdr_v2_eof_quirk. Qed.
 Print Assumptions C11_ohdr_v2_eof_quirk.
 
-(* object header version 1 as the pinned tree writes it: the size field is 16 + 8*n, messages are lost *)
+(* object header version 1 (size field = message bytes, as written since /repo bd70d6d) *)
+Theorem C11_ohdr_v1_roundtrip : forall x (pre suf : list N),
+  wf_ohdr_v1 x = true ->
+  blen pre + size_ohdr_v1 x + 16 < 9223372036854775808 ->
+  dec_ohdr false (pre ++ enc_ohdr_v1 x ++ suf) (blen pre) = Ok (proj_ohdr_v1 x (blen pre)).
+Proof. exact ohdr_v1_roundtrip. Qed.
+Print Assumptions C11_ohdr_v1_roundtrip.
+
+Theorem C11_ohdr_v1_len : forall x, blen (enc_ohdr_v1 x) = size_ohdr_v1 x.
+Proof. exact (ohdr_v1_blen true). Qed.
+Print Assumptions C11_ohdr_v1_len.
+
+(* the defect this check found on the earlier tree: with the size field 16 + 8*n messages are lost *)
 Theorem C11_ohdr_v1_refuted :
   exists x, oh_version x = 1 /\
     dec_ohdr false (enc_ohdr_v1_gen false x ++ [0]) 0 <> Ok (proj_ohdr_v1 x 0).
